@@ -214,7 +214,7 @@ def make_T(z, e, tmin, sigma):
 def _t_worker(batch):
     out = []
     for (z, e), cases in batch:
-        for sigma, tmin in ((1.0, 7.0), (25.0, 0.125)):
+        for sigma, tmin in ((1.0, 7), (25.0, 0.125), (1.0, 3.5)):      # 7: an integer, as YAML gives for `7`
             try:
                 T = make_T(z, e, tmin, sigma)
             except Exception as ex:  # noqa
